@@ -8,7 +8,7 @@ CONSTANTS
   Outcomes = {"ok", "err"}
   MaxYield = 1
   EnvOps <- EnvOps3
-  KillCarriesState = TRUE
+  KillCarriesState = FALSE
   Once = TRUE
   Local = {}
   MonPairs = {}
